@@ -110,6 +110,11 @@ def instantiations(sides):
         for lf, lfn in ((C.Byte, "Byte"), (C.VarInt, "VarInt"), (C.Int16ul, "Int16ul")):
             for sc, scn in ((C.Byte, "Byte"), (C.Int16ub, "Int16ub"), (C.CString("ascii"), "CString"), (C.Struct("a" / C.Byte, "b" / C.Flag), "Struct")):
                 add("%s,%s" % (lfn, scn), {"lengthfield": lf, "subcon": sc}, ["PrefixedArray(lengthfield, subcon)", sides[1]])
+                # the same law where the array is skipped by its actual size (deferred parsing) instead of being parsed
+                if scn in ("Byte", "Int16ub"):
+                    for wn, w in (("LazyArray", "Struct('z' / LazyArray(2, %s), 't' / Byte)"), ("LazyStruct-unnamed", "LazyStruct('a' / Byte, %s, 't' / Byte)"),
+                                  ("LazyStruct-named", "LazyStruct('a' / Byte, 'p' / %s, 't' / Byte)"), ("Lazy", "Struct('l' / Lazy(%s), 't' / Byte)")):
+                        add("%s,%s,in %s" % (lfn, scn, wn), {"lengthfield": lf, "subcon": sc}, [w % "PrefixedArray(lengthfield, subcon)", w % ("(" + sides[1] + ")")])
         return out
     if sides[0] == "Optional":
         for sc, scn in ((C.Byte, "Byte"), (C.Int16ub, "Int16ub"), (C.Const(b"AB"), "Const"), (C.CString("ascii"), "CString"), (C.OneOf(C.Byte, [1, 2]), "OneOf"),
@@ -211,6 +216,17 @@ def values_from(d1, d2, inputs, kw, rng):
     return vals + hostile
 
 
+def read_all(v, stream):
+    """deferred (lazy) members are read inside the observed call, with the stream put back where the parse left it: a lazy
+    parse has accepted the input only once all of it could be read"""
+    pos = stream.pos
+    try:
+        norm(v)
+    finally:
+        stream.pos = pos
+    return v
+
+
 def compare_pair(ctx, where, label, srcs, i, j, env, rng):
     import construct as C
     try:
@@ -233,8 +249,8 @@ def compare_pair(ctx, where, label, srcs, i, j, env, rng):
         for data in inputs:
             ctx.ev()
             s1, s2 = TracedStream(data), TracedStream(data)
-            r1 = outcome(lambda: d1.parse_stream(s1, **kw))
-            r2 = outcome(lambda: d2.parse_stream(s2, **kw))
+            r1 = outcome(lambda: read_all(d1.parse_stream(s1, **kw), s1))
+            r2 = outcome(lambda: read_all(d2.parse_stream(s2, **kw), s2))
             if r1[0] != r2[0] or (r1[0] == "ok" and (not veq(r1[1], r2[1]) or s1.pos != s2.pos)):
                 ctx.violation("law-parse-differs:" + lawkey(srcs, i, j), "%s [%s] parse(%s): %r -> %r (pos %d) ; %r -> %r (pos %d)" % (where, label, data.hex(), srcs[i], r1, s1.pos, srcs[j], r2, s2.pos),
                               dict(casebase, kw=kw, input=tag(data)))
